@@ -16,6 +16,8 @@ variable {B E1 E2 : Type}
 structure Morph (c1 : Ctx B E1) (c2 : Ctx B E2) (f : E1 → E2) : Prop where
   hb : c1.b = c2.b
   hexp : c1.exp = c2.exp
+  hroot : c1.root = c2.root
+  hta : c1.twoAdicity = c2.twoAdicity
   zero : f c1.e.zero = c2.e.zero
   add : ∀ x y, f (c1.e.add x y) = c2.e.add (f x) (f y)
   sub : ∀ x y, f (c1.e.sub x y) = c2.e.sub (f x) (f y)
@@ -126,6 +128,20 @@ theorem evalChunks_map (p : Array E1) (tws : Array B) (g s : B) (blowup : Nat) :
   induction n with
   | zero => intro i acc; rfl
   | succ n ih => intro i acc; simp only [evalChunks]; rw [ih, Array.map_append, evalChunk_map m]
+
+/-- `evaluate_poly_with_offset` commutes with every context morphism -/
+theorem evaluatePolyWithOffset_map (p : Array E1) (tws : Array B) (s : B) (blowup : Nat) :
+    evaluatePolyWithOffset c2 (p.map f) tws s blowup =
+      (evaluatePolyWithOffset c1 p tws s blowup).map (fun a => a.map f) := by
+  unfold evaluatePolyWithOffset
+  simp only [Array.size_map, m.hb, m.hta, m.hroot]
+  split; · rfl
+  split; · rfl
+  split; · rfl
+  split; · rfl
+  split; · rfl
+  simp only [Option.map_some, permute_map, evalChunks_map m]
+  simp
 
 end morph
 
